@@ -750,7 +750,13 @@ func (e *codecEngine) inChild(o *Out, opText string) {
 	if err != nil {
 		panic(err)
 	}
-	ctx, cancel := context.WithTimeout(context.Background(), grace+20*time.Second)
+	// the child applies the watchdog itself (and re-measures); the parent only kills a child that is
+	// stuck beyond everything the child's own bounds allow
+	ws := strings.Fields(opText)
+	inLen := len(unhexPkt(ws[2])) + len(unhexPkt(ws[3]))*Atoi(ws[4]) + len(unhexPkt(ws[5]))
+	childBudget := watchdog + time.Duration(inLen)*cpuPerStreamByte
+	limit := 4*(grace+3*childBudget) + 30*time.Second
+	ctx, cancel := context.WithTimeout(context.Background(), limit)
 	defer cancel()
 	cmd := exec.CommandContext(ctx, exe, "run")
 	cmd.Env = append(os.Environ(), "VERIF_CODEC_CHILD=1")
@@ -779,7 +785,7 @@ func (e *codecEngine) inChild(o *Out, opText string) {
 		}
 	}
 	if ctx.Err() != nil {
-		o.Fail("C13", "hang", opText+" child process killed after "+(grace+20*time.Second).String())
+		o.Fail("C13", "hang", opText+" child process killed after "+limit.String())
 		return
 	}
 	if runErr != nil {
